@@ -60,6 +60,10 @@ def run(tier):
         for i in range(n):
             src, mods = progs.generate(rng.fork(str(i)), prof)
             plist.append({"name": "%s/%d" % (name, i), "steps": [("snip", src)], "mods": mods})
+    from ..gen import feat_residue
+    r6 = ck.rng.fork("residue")
+    for i in range(200 if quick else 5000 * common.TS):
+        plist.append({"name": "residue/%d" % i, "steps": [("snip", feat_residue.program(r6.fork(str(i))))], "mods": []})
     for name, src in feat_scope.capture_limit_programs():
         plist.append({"name": name, "steps": [("snip", src)], "mods": [], "budget": 3000000})
     base = {}
